@@ -584,11 +584,14 @@ pub fn cmd_spec(args: &[String]) {
     let seed: u64 = args[0].parse().unwrap();
     let n: u64 = args[1].parse().unwrap();
     let nh: u64 = args[2].parse().unwrap();
+    // "class" mode (C12): every case is ^E$ for a generated class E, run on single characters and short strings
+    // derived from E (members, neighbours of range ends, the strings of \q{..}) plus fixed probes
+    let class_mode = args.get(3).map(|s| s == "class").unwrap_or(false);
     let mut r = Rng::new(seed);
     let stdout = std::io::stdout();
     let mut w = std::io::BufWriter::new(stdout.lock());
     let flagsets = ["", "", "i", "m", "s", "u", "iu", "ms", "v", "iv", "is", "imsu", "u", "iu"];
-    let family: Vec<(Ast, &'static str)> = if seed % 1000 == 0 { spec_family() } else { vec![] };
+    let family: Vec<(Ast, &'static str)> = if seed % 1000 == 0 && !class_mode { spec_family() } else { vec![] };
     let nfam = family.len() as u64;
     for id in 0..(n + nfam) {
         let is_family = id < nfam;
@@ -598,8 +601,48 @@ pub fn cmd_spec(args: &[String]) {
             let f = *r.pick(&flagsets);
             let depth = if r.chance(1, 5) { 3 } else { 1 + r.below(2) as u32 };
             let mut g = G { r: &mut r, unicode: f.contains('u'), vmode: f.contains('v'), ngroups_seen: 0, names_seen: vec![] };
-            (g.alt(depth, false), f)
+            if class_mode {
+                let n = 1 + g.r.below(4) as usize;
+                let allow_str = g.vmode;
+                let mut items: Vec<Item> = (0..n).map(|_| g.item(allow_str)).collect();
+                let has_str = items.iter().any(|i| matches!(i, Item::Str(_)));
+                let inv = !has_str && g.r.chance(1, 3);
+                if inv && g.vmode {
+                    items.retain(|i| !matches!(i, Item::Str(_)));
+                }
+                (Ast::Seq(vec![Ast::Bol, Ast::Class { inv, items }, Ast::Eol]), f)
+            } else {
+                (g.alt(depth, false), f)
+            }
         };
+        let class_probes: Vec<String> = if class_mode && !is_family {
+            let mut ps: Vec<String> = ["\0", "a", "A", "b", "k", "K", "\u{212A}", "s", "S", "\u{17F}", "é", "É", "ß", "\u{7f}", "\u{80}", "_", "0", " ", "\n", "", "ab", "\u{10FFFF}", "\u{FFFF}"]
+                .iter().map(|t| t.to_string()).collect();
+            let mut push_cp = |c: u32, ps: &mut Vec<String>| { if let Some(ch) = char::from_u32(c) { ps.push(ch.to_string()); } };
+            if let Ast::Seq(v) = &ast {
+                if let Ast::Class { items, .. } = &v[1] {
+                    for it in items {
+                        match it {
+                            Item::Ch(c) => {
+                                for d in [*c, c.wrapping_sub(1), c + 1] { push_cp(d, &mut ps); }
+                                if let Some(ch) = char::from_u32(*c) {
+                                    ps.push(ch.to_uppercase().collect()); ps.push(ch.to_lowercase().collect());
+                                }
+                            }
+                            Item::Range(a, b) => { for d in [*a, *b, a.wrapping_sub(1), b + 1, (a + b) / 2] { push_cp(d, &mut ps); } }
+                            Item::Str(st) => {
+                                let t: String = st.iter().filter_map(|c| char::from_u32(*c)).collect();
+                                ps.push(t.clone());
+                                if !t.is_empty() { let mut u = t.clone(); u.pop(); ps.push(u); let mut v2 = t.clone(); v2.push('a'); ps.push(v2); }
+                            }
+                            Item::Esc(_) => {}
+                        }
+                    }
+                }
+            }
+            ps.sort(); ps.dedup();
+            ps
+        } else { vec![] };
         let unicode = f.contains('u');
         let vmode = f.contains('v');
         let mut pat = String::new();
@@ -630,7 +673,7 @@ pub fn cmd_spec(args: &[String]) {
         }
         writeln!(w, "P {} {} {} {} {}", id, crate::api_cps_hex(&pat), if f.is_empty() { "-" } else { f }, total, (unicode || vmode) as u8).unwrap();
         writeln!(w, "A {}", toks).unwrap();
-        let nhays = if is_family { FAMILY_HAYS.len() as u64 } else { nh };
+        let nhays = if is_family { FAMILY_HAYS.len() as u64 } else if class_mode { class_probes.len() as u64 } else { nh };
         for hi in 0..nhays {
             if is_family {
                 let t = FAMILY_HAYS[hi as usize].to_string();
@@ -662,7 +705,11 @@ pub fn cmd_spec(args: &[String]) {
             for _ in 0..len {
                 t.push_str(*r.pick(HAY_ALPHA));
             }
-            let starts: Vec<usize> = if r.chance(1, 3) { let mut v: Vec<usize> = t.char_indices().map(|(i, _)| i).collect(); v.push(t.len()); v } else { vec![0] };
+            if class_mode {
+                if (hi as usize) >= class_probes.len() { break; }
+                t = class_probes[hi as usize].clone();
+            }
+            let starts: Vec<usize> = if !class_mode && r.chance(1, 3) { let mut v: Vec<usize> = t.char_indices().map(|(i, _)| i).collect(); v.push(t.len()); v } else { vec![0] };
             for s in starts {
                 crate::verif::reset_steps(200000);
                 let res = panic::catch_unwind(panic::AssertUnwindSafe(|| re.find_from(&t, s).next()));
